@@ -111,11 +111,15 @@ func c20Run(c *core.Case, o *core.Outcome) {
 	var p c20Params
 	c.Params(&p)
 	metrics.Init(true) // T.Time records through the process-wide instance
+	defer engine.OtherHandle.Store(nil)
 	cur := &c20Cur{l: engine.NewLog()}
 	var comps []f1testing.ScenarioFn
 	for i, cp := range p.Comps {
 		i, cp := i, cp
 		comps = append(comps, func(t *f1testing.T) f1testing.RunFn {
+			if i == 0 {
+				engine.OtherHandle.Store(t)
+			}
 			cur.l.Add("setup", engine.HandleID(t), "", int64(i), "")
 			if cp.Setup != engine.BPass {
 				engine.Behave(t, cp.Setup)
